@@ -41,13 +41,21 @@ type lockHeld struct {
 }
 type siteRec struct {
 	strct, field, fn string
-	write, atomic   bool
-	locks           []lockHeld
-	ctor            bool
-	pos             string
+	write, atomic    bool
+	locks            []lockHeld
+	ctor             bool
+	pos              string
+}
+
+type callRec struct {
+	caller, callee string
+	guards         []string // "Struct.field" flags whose compare-and-swap succeeded around this call
+	pos            string
 }
 
 type accessGen struct {
+	calls    []callRec
+	methods  map[string]bool // "Struct.method"
 	fset     *token.FileSet
 	structs  map[string]*structInfo
 	wrappers map[string]lockHeld // "Struct.method" -> lock wrapper (withLock / withReadLock)
@@ -227,6 +235,7 @@ type walker struct {
 	g    *accessGen
 	fn   string
 	held []lockHeld
+	cas  []string // flags acquired by a successful CompareAndSwap in an enclosing if
 	e    *env
 }
 
@@ -264,6 +273,11 @@ func (w *walker) expr(x ast.Expr, mode int) {
 	}
 	switch t := x.(type) {
 	case *ast.SelectorExpr:
+		if s, _ := w.g.resolve(t.X, w.e); s != "" && w.g.methods[s+"."+t.Sel.Name] {
+			p := w.g.fset.Position(t.Sel.Pos())
+			w.g.calls = append(w.g.calls, callRec{caller: w.fn, callee: s + "_" + t.Sel.Name, guards: append([]string(nil), w.cas...),
+				pos: fmt.Sprintf("%s:%d", filepath.Base(p.Filename), p.Line)})
+		}
 		if s, fresh := w.g.resolve(t.X, w.e); s != "" {
 			if _, fi := w.g.lookup(s, t.Sel.Name); fi != nil {
 				switch mode {
@@ -283,7 +297,7 @@ func (w *walker) expr(x ast.Expr, mode int) {
 		w.call(t)
 	case *ast.FuncLit:
 		// a closure that runs later / elsewhere holds none of the locks of its creator
-		sub := &walker{g: w.g, fn: w.fn, e: w.e.clone()}
+		sub := &walker{g: w.g, fn: w.fn, e: w.e.clone(), cas: w.cas}
 		sub.block(t.Body.List)
 	case *ast.CompositeLit:
 		if tn := typeName(t.Type); trackedStructs[tn] {
@@ -335,6 +349,10 @@ func (w *walker) expr(x ast.Expr, mode int) {
 }
 
 func (w *walker) call(c *ast.CallExpr) {
+	// verification hooks compile to nothing in a normal build (verif_off.go): not part of the code under verification
+	if id, ok := c.Fun.(*ast.Ident); ok && strings.HasPrefix(id.Name, "verifYield") {
+		return
+	}
 	// sync/atomic function on &x.f
 	if s, ok := c.Fun.(*ast.SelectorExpr); ok {
 		if p, ok := s.X.(*ast.Ident); ok && p.Name == "atomic" && w.e.vars["atomic"] == "" {
@@ -371,7 +389,7 @@ func (w *walker) call(c *ast.CallExpr) {
 			if lw, ok := w.g.wrappers[st+"."+s.Sel.Name]; ok && len(c.Args) == 1 {
 				if fl, ok := c.Args[0].(*ast.FuncLit); ok {
 					w.expr(s.X, mRead)
-					sub := &walker{g: w.g, fn: w.fn, e: w.e.clone(), held: append(append([]lockHeld(nil), w.held...), lockHeld{types.ExprString(s.X), st, lw.field, lw.ex, true})}
+					sub := &walker{g: w.g, fn: w.fn, cas: w.cas, e: w.e.clone(), held: append(append([]lockHeld(nil), w.held...), lockHeld{types.ExprString(s.X), st, lw.field, lw.ex, true})}
 					sub.block(fl.Body.List)
 					return
 				}
@@ -386,7 +404,7 @@ func (w *walker) call(c *ast.CallExpr) {
 	}
 	// immediately invoked closure keeps the locks
 	if fl, ok := c.Fun.(*ast.FuncLit); ok {
-		sub := &walker{g: w.g, fn: w.fn, e: w.e.clone(), held: append([]lockHeld(nil), w.held...)}
+		sub := &walker{g: w.g, fn: w.fn, cas: w.cas, e: w.e.clone(), held: append([]lockHeld(nil), w.held...)}
 		sub.block(fl.Body.List)
 	} else {
 		w.expr(c.Fun, mRead)
@@ -445,8 +463,37 @@ func (w *walker) block(stmts []ast.Stmt) {
 	}
 }
 
+// condition `atomic.CompareAndSwapInt32(&x.f, ...)` on a tracked object: the flag "Struct.f" is acquired in the body
+func (w *walker) casFlag(cond ast.Expr) string {
+	c, ok := cond.(*ast.CallExpr)
+	if !ok || len(c.Args) == 0 {
+		return ""
+	}
+	s, ok := c.Fun.(*ast.SelectorExpr)
+	if !ok || !strings.HasPrefix(s.Sel.Name, "CompareAndSwap") {
+		return ""
+	}
+	if p, ok := s.X.(*ast.Ident); !ok || p.Name != "atomic" {
+		return ""
+	}
+	u, ok := c.Args[0].(*ast.UnaryExpr)
+	if !ok || u.Op != token.AND {
+		return ""
+	}
+	sel, ok := u.X.(*ast.SelectorExpr)
+	if !ok {
+		return ""
+	}
+	st, _ := w.g.resolve(sel.X, w.e)
+	owner, fi := w.g.lookup(st, sel.Sel.Name)
+	if fi == nil {
+		return ""
+	}
+	return owner + "." + sel.Sel.Name
+}
+
 func (w *walker) nested(stmts []ast.Stmt) {
-	sub := &walker{g: w.g, fn: w.fn, e: w.e, held: append([]lockHeld(nil), w.held...)}
+	sub := &walker{g: w.g, fn: w.fn, cas: w.cas, e: w.e, held: append([]lockHeld(nil), w.held...)}
 	sub.block(stmts)
 	if len(sub.held) != len(w.held) {
 		failf("access: lock state changes inside a nested block in %s (unsupported)", w.fn)
@@ -493,7 +540,7 @@ func (w *walker) stmt(s ast.Stmt) {
 					keep = append(keep, h)
 				}
 			}
-			sub := &walker{g: w.g, fn: w.fn, e: w.e.clone(), held: keep}
+			sub := &walker{g: w.g, fn: w.fn, cas: w.cas, e: w.e.clone(), held: keep}
 			sub.block(fl.Body.List)
 			for _, a := range t.Call.Args {
 				w.expr(a, mRead)
@@ -506,10 +553,10 @@ func (w *walker) stmt(s ast.Stmt) {
 				keep = append(keep, h)
 			}
 		}
-		sub := &walker{g: w.g, fn: w.fn, e: w.e, held: keep}
+		sub := &walker{g: w.g, fn: w.fn, cas: w.cas, e: w.e, held: keep}
 		sub.call(t.Call)
 	case *ast.GoStmt:
-		sub := &walker{g: w.g, fn: w.fn, e: w.e.clone()}
+		sub := &walker{g: w.g, fn: w.fn, e: w.e.clone(), cas: w.cas}
 		sub.call(t.Call)
 	case *ast.AssignStmt:
 		for _, r := range t.Rhs {
@@ -567,7 +614,15 @@ func (w *walker) stmt(s ast.Stmt) {
 	case *ast.IfStmt:
 		w.stmt(t.Init)
 		w.expr(t.Cond, mRead)
-		w.nested(t.Body.List)
+		if flag := w.casFlag(t.Cond); flag != "" {
+			sub := &walker{g: w.g, fn: w.fn, e: w.e, held: append([]lockHeld(nil), w.held...), cas: append(append([]string(nil), w.cas...), flag)}
+			sub.block(t.Body.List)
+			if len(sub.held) != len(w.held) {
+				failf("access: lock state changes inside a nested block in %s (unsupported)", w.fn)
+			}
+		} else {
+			w.nested(t.Body.List)
+		}
 		if t.Else != nil {
 			w.nested([]ast.Stmt{t.Else})
 		}
@@ -710,6 +765,16 @@ func genAccess(repo string) (string, error) {
 	if len(failures) > 0 {
 		return "", nil
 	}
+	g.methods = map[string]bool{}
+	for _, f := range files {
+		for _, d := range f.Decls {
+			if fd, ok := d.(*ast.FuncDecl); ok && fd.Recv != nil && len(fd.Recv.List) == 1 {
+				if st := typeName(fd.Recv.List[0].Type); trackedStructs[st] {
+					g.methods[st+"."+fd.Name.Name] = true
+				}
+			}
+		}
+	}
 	g.findWrappers(files)
 	g.walkFuncs(files)
 
@@ -760,6 +825,20 @@ func genAccess(repo string) (string, error) {
 		}
 		sb.WriteString(fmt.Sprintf("  {| s_field := f_%s_%s; s_func := fn_%s; s_write := %v; s_atomic := %v; s_locks := [%s]; s_ctor := %v |}%s (* #%d %s *)\n",
 			s.strct, coqIdent(s.field), coqIdent(s.fn), s.write, s.atomic, strings.Join(ls, "; "), s.ctor, sep, i, s.pos))
+	}
+	sb.WriteString("].\n\n")
+	sb.WriteString("(* every call of / reference to a method of a tracked struct, with the flags whose compare-and-swap\n   succeeded in an enclosing `if atomic.CompareAndSwap...(&x.flag, ...)` *)\n")
+	sb.WriteString("Definition calls : list mcall := [\n")
+	for i, c := range g.calls {
+		var gs []string
+		for _, x := range c.guards {
+			gs = append(gs, "f_"+coqIdent(strings.Replace(x, ".", "_", 1)))
+		}
+		sep := ";"
+		if i == len(g.calls)-1 {
+			sep = ""
+		}
+		sb.WriteString(fmt.Sprintf("  {| c_caller := fn_%s; c_callee := fn_%s; c_guards := [%s] |}%s (* %s *)\n", coqIdent(c.caller), coqIdent(c.callee), strings.Join(gs, "; "), sep, c.pos))
 	}
 	sb.WriteString("].\n")
 	return sb.String(), nil
